@@ -859,3 +859,542 @@ Proof.
   destruct (lex_text_block len start c) as [[t c']|e| |]; auto.
   destruct A as [s [K [V _]]]. exists s. split; assumption.
 Qed.
+
+(* ================================================================== *)
+(* Numbers: the state machine against a segment-level grammar          *)
+
+(* a digit group as the scanner reads it: digits, a single underscore allowed
+   between digits — and, as written, also after the last digit.  Returns the
+   digits, whether the group ended right after an underscore, and the rest. *)
+Fixpoint scan_group (us : bool) (r : list N) : list N * bool * list N :=
+  match r with
+  | [] => ([], us, r)
+  | b :: r' =>
+      if is_digit b then let '(d, u, t) := scan_group false r' in (b :: d, u, t)
+      else if negb us && (b =? 95) then scan_group true r'
+      else ([], us, r)
+  end.
+
+Definition dec_value (ds : list N) : N := fold_left (fun a d => a * 10 + (d - 48)) ds 0.
+
+Definition in_i64 (z : Z) : bool := negb ((z <? i64_min)%Z || (i64_max <? z)%Z).
+
+Notation numres := (outcome (list N * Z * list N) lex_error_kind).
+
+Section NumSpec.
+(* strict = true: the upstream grammar, an underscore must be followed by a digit;
+   strict = false: what lexer/mod.rs does ('.' and 'e' are accepted after '_') *)
+Variable strict : bool.
+
+Definition after_us (us : bool) (k : numres) : numres :=
+  if strict && us then Err EMissingDigitAfterUnderscore else k.
+
+(* no further part: [X] is the explicit exponent's magnitude *)
+Definition num_finish (di df : list N) (sign : bool) (X : N) (t : list N) : numres :=
+  if (i64_max <? Z.of_N X)%Z then Err EExpOverflow
+  else
+    let e := ((if sign then - Z.of_N X else Z.of_N X) - Z.of_nat (length df))%Z in
+    if in_i64 e then Ok (di ++ df, e, t) else Err EExpOverflow.
+
+(* after e / E: optional sign, a digit group *)
+Definition spec_exp (di df : list N) (r : list N) : numres :=
+  let '(sign, r1) := match r with
+                     | b :: r' => if b =? 43 then (false, r') else if b =? 45 then (true, r') else (false, r)
+                     | [] => (false, r)
+                     end in
+  match r1 with
+  | b :: r2 =>
+      if is_digit b then
+        let '(dx, us, t) := scan_group false r2 in
+        if us then Err EMissingDigitAfterUnderscore else num_finish di df sign (dec_value (b :: dx)) t
+      else Err EMissingExpDigits
+  | [] => Err EMissingExpDigits
+  end.
+
+Definition spec_tail (di df : list N) (us : bool) (t : list N) : numres :=
+  if us then Err EMissingDigitAfterUnderscore else num_finish di df false 0 t.
+
+(* integer part [chr0 :: group], then optionally '.' group, then optionally e-part *)
+Definition number_spec (chr0 : N) (r : list N) : numres :=
+  let '(di, us1, r1) := scan_group false r in
+  if (chr0 =? 48) && negb (match di with [] => true | _ => false end) then Err ELeadingZeroInNumber
+  else
+    let int_ds := chr0 :: di in
+    match r1 with
+    | b :: r2 =>
+        if b =? 46 then
+          after_us us1
+            match r2 with
+            | d :: r3 =>
+                if is_digit d then
+                  let '(df, us2, r4) := scan_group false r3 in
+                  match r4 with
+                  | b2 :: r5 => if is_e b2 then after_us us2 (spec_exp int_ds (d :: df) r5)
+                                else spec_tail int_ds (d :: df) us2 r4
+                  | [] => spec_tail int_ds (d :: df) us2 r4
+                  end
+                else Err EMissingFracDigits
+            | [] => Err EMissingFracDigits
+            end
+        else if is_e b then after_us us1 (spec_exp int_ds [] r2)
+        else spec_tail int_ds [] us1 r1
+    | [] => spec_tail int_ds [] us1 r1
+    end.
+End NumSpec.
+
+(* ---- the loop runs through a digit group ---- *)
+Definition stopped (u : bool) (t : list N) : Prop :=
+  match t with
+  | [] => True
+  | b :: _ => is_digit b = false /\ (u = false -> b <> 95)
+  end.
+
+Lemma scan_group_stopped : forall r us, let '(d, u, t) := scan_group us r in stopped u t.
+Proof.
+  induction r as [|b r IH]; intros us; cbn [scan_group]; [exact I|].
+  destruct (is_digit b) eqn:D.
+  - specialize (IH false). destruct (scan_group false r) as [[d u] t]. exact IH.
+  - destruct us; cbn [negb andb].
+    + split; [exact D|discriminate].
+    + destruct (N.eqb_spec b 95) as [->|Ne].
+      * specialize (IH true). destruct (scan_group true r) as [[d u] t]. exact IH.
+      * split; [exact D|intros _; exact Ne].
+Qed.
+
+Section Group.
+Variables (len : N) (lz : bool).
+Variable G : bool -> nstate.
+Variable upd : nacc -> N -> nacc.
+Variable Inv : nacc -> Prop.
+Hypothesis step_digit : forall us a b, Inv a -> is_digit b = true ->
+  num_step lz (G us) a b = NGo (G false) (upd a b) /\ Inv (upd a b).
+Hypothesis step_us : forall a b, is_digit b = false -> b = 95 -> num_step lz (G false) a b = NGo (G true) a.
+
+Lemma group_loop : forall r ps us a, Inv a ->
+  let '(d, u, t) := scan_group us r in
+  exists ps', num_loop len lz r ps (G us) a = num_loop len lz t ps' (G u) (fold_left upd d a) /\
+              Inv (fold_left upd d a).
+Proof.
+  induction r as [|b r IH]; intros ps us a HI; cbn [scan_group].
+  - exists ps. split; [reflexivity|exact HI].
+  - destruct (is_digit b) eqn:D.
+    + destruct (step_digit us a b HI D) as [ST HI'].
+      specialize (IH (ps + 1) false (upd a b) HI'). destruct (scan_group false r) as [[d u] t].
+      destruct IH as [ps' [E I2]]. exists ps'. cbn [num_loop fold_left]. rewrite ST. split; assumption.
+    + destruct us; cbn [negb andb].
+      * exists ps. split; [reflexivity|exact HI].
+      * destruct (N.eqb_spec b 95) as [->|Ne].
+        -- specialize (IH (ps + 1) true a HI). destruct (scan_group true r) as [[d u] t].
+           destruct IH as [ps' [E I2]]. exists ps'. cbn [num_loop]. rewrite (step_us a 95 D eq_refl). split; assumption.
+        -- exists ps. split; [reflexivity|exact HI].
+Qed.
+End Group.
+
+(* ---- accumulators ---- *)
+Definition exp_opt (v : N) : option N := if u64_max <? v then None else Some v.
+Definition dec_step (a d : N) : N := a * 10 + (d - 48).
+
+Lemma exp_push_opt v d : exp_push (exp_opt v) d = exp_opt (v * 10 + d).
+Proof.
+  unfold exp_opt, exp_push.
+  destruct (N.ltb_spec u64_max v) as [H|H].
+  - destruct (N.ltb_spec u64_max (v * 10 + d)); [reflexivity|lia].
+  - destruct (N.ltb_spec u64_max (v * 10)) as [H1|H1].
+    + destruct (N.ltb_spec u64_max (v * 10 + d)); [reflexivity|lia].
+    + reflexivity.
+Qed.
+
+Definition upd_int (a : nacc) (b : N) : nacc := push_digit a b false.
+Definition upd_frac (a : nacc) (b : N) : nacc := push_digit a b true.
+Definition upd_exp (a : nacc) (b : N) : nacc := set_expl a (exp_push (n_expl a) (b - 48)).
+
+Lemma fold_int d : forall a, n_digits (fold_left upd_int d a) = rev d ++ n_digits a /\
+  n_impl (fold_left upd_int d a) = n_impl a /\ n_expl (fold_left upd_int d a) = n_expl a /\
+  n_sign (fold_left upd_int d a) = n_sign a.
+Proof.
+  induction d as [|b d IH]; intros a; cbn [fold_left rev app]; [repeat split|].
+  destruct (IH (upd_int a b)) as [A [B [C D]]]. rewrite A, B, C, D. cbn. rewrite <- app_assoc. repeat split.
+Qed.
+
+Lemma fold_frac d : forall a, n_digits (fold_left upd_frac d a) = rev d ++ n_digits a /\
+  n_impl (fold_left upd_frac d a) = (n_impl a - Z.of_nat (length d))%Z /\
+  n_expl (fold_left upd_frac d a) = n_expl a /\ n_sign (fold_left upd_frac d a) = n_sign a.
+Proof.
+  induction d as [|b d IH]; intros a; cbn [fold_left rev app length]; [repeat split; lia|].
+  destruct (IH (upd_frac a b)) as [A [B [C D]]]. rewrite A, B, C, D. cbn [upd_frac push_digit n_digits n_impl n_expl n_sign].
+  rewrite <- app_assoc. repeat split. lia.
+Qed.
+
+Lemma fold_exp d : forall a v, n_expl a = exp_opt v ->
+  n_digits (fold_left upd_exp d a) = n_digits a /\ n_impl (fold_left upd_exp d a) = n_impl a /\
+  n_expl (fold_left upd_exp d a) = exp_opt (fold_left dec_step d v) /\
+  n_sign (fold_left upd_exp d a) = n_sign a.
+Proof.
+  induction d as [|b d IH]; intros a v H; cbn [fold_left]; [repeat split; exact H|].
+  assert (H' : n_expl (upd_exp a b) = exp_opt (dec_step v b)).
+  { unfold upd_exp. cbn [set_expl n_expl]. rewrite H. apply exp_push_opt. }
+  destruct (IH (upd_exp a b) (dec_step v b) H') as [A [B [C D]]]. rewrite A, B, C, D. repeat split.
+Qed.
+
+(* ---- how a finished accumulator answers ---- *)
+Definition acc_is (a : nacc) (ds : list N) (k : nat) (sign : bool) (X : N) : Prop :=
+  n_digits a = rev ds /\ n_impl a = (- Z.of_nat k)%Z /\ n_sign a = sign /\ n_expl a = exp_opt X.
+
+Lemma eff_exp_finish a di df sign X t : acc_is a (di ++ df) (length df) sign X ->
+  match eff_exp a with
+  | Some e => num_finish di df sign X t = Ok (rev (n_digits a), e, t)
+  | None => num_finish di df sign X t = Err EExpOverflow
+  end.
+Proof.
+  intros [A [B [C D]]]. unfold eff_exp, num_finish. rewrite D, B, C, A, rev_involutive. unfold exp_opt.
+  destruct (N.ltb_spec u64_max X) as [H|H].
+  - replace (i64_max <? Z.of_N X)%Z with true; [reflexivity|].
+    symmetry. apply Z.ltb_lt. unfold i64_max, u64_max in *. lia.
+  - destruct (i64_max <? Z.of_N X)%Z; [reflexivity|].
+    assert (E : (if sign then (- Z.of_nat (length df) - Z.of_N X)%Z else (- Z.of_nat (length df) + Z.of_N X)%Z)
+                = ((if sign then (- Z.of_N X)%Z else Z.of_N X) - Z.of_nat (length df))%Z) by (destruct sign; lia).
+    rewrite E. unfold in_i64. destruct (_ || _); reflexivity.
+Qed.
+
+(* results of the number loop, up to positions and spans *)
+Definition finish_rel (r : res (nacc * cur)) (q : numres) : Prop :=
+  match r with
+  | Ok (a, c') =>
+      match eff_exp a with
+      | Some e => q = Ok (rev (n_digits a), e, rest c')
+      | None => q = Err EExpOverflow
+      end
+  | Err e => q = Err (err_kind e)
+  | _ => True
+  end.
+
+Lemma finish_rel_fail len k s e : finish_rel (fail len k s e) (Err k).
+Proof.
+  pose proof (fail_inv (A := nacc * cur) len k s e _ eq_refl) as H. unfold finish_rel.
+  destruct (fail len k s e) as [[a c]| | |]; auto; [contradiction|congruence].
+Qed.
+
+Lemma finish_rel_usub_fail len k a b : forall f : N -> N * N,
+  finish_rel (do s <- usub a b; fail len k (fst (f s)) (snd (f s))) (Err k).
+Proof. intros f. unfold usub. destruct (a <? b); [exact I|]. cbn [obind]. apply finish_rel_fail. Qed.
+
+Lemma stop_err_us len st a c : (st = NInt true \/ st = NFrac true \/ st = NExpDigits true) ->
+  finish_rel (num_stop len st a c) (Err EMissingDigitAfterUnderscore).
+Proof.
+  intros [ -> | [ -> | -> ] ]; unfold num_stop; unfold usub; destruct (pos c <? 1); try exact I; cbn [obind]; apply finish_rel_fail.
+Qed.
+
+Lemma stop_err len st a c k : (st = NDot /\ k = EMissingFracDigits) \/ ((st = NExp \/ st = NExpSign) /\ k = EMissingExpDigits) ->
+  finish_rel (num_stop len st a c) (Err k).
+Proof.
+  intros [[E1 E2]|[[E1|E1] E2]]; subst st k; unfold num_stop; unfold usub;
+    match goal with |- context[if ?x then _ else _] => destruct x end; try exact I; cbn [obind]; apply finish_rel_fail.
+Qed.
+
+Lemma stop_ok len st a c di df sign X : (st = NInt false \/ st = NFrac false \/ st = NExpDigits false) ->
+  acc_is a (di ++ df) (length df) sign X ->
+  finish_rel (num_stop len st a c) (num_finish di df sign X (rest c)).
+Proof.
+  intros H HA. pose proof (eff_exp_finish a di df sign X (rest c) HA) as E.
+  destruct H as [ -> | [ -> | -> ] ]; cbn [num_stop finish_rel]; destruct (eff_exp a); exact E.
+Qed.
+
+Lemma usb_false u b : (u = false -> b <> 95) -> negb u && (b =? 95) = false.
+Proof. destruct u; [reflexivity|]. intros H. cbn. apply N.eqb_neq, H, eq_refl. Qed.
+
+Section Chain.
+Variables (len : N) (lz : bool).
+
+(* ---- exponent digits ---- *)
+Lemma expdigits_group r ps a :
+  let '(d, u, t) := scan_group false r in
+  exists ps', num_loop len lz r ps (NExpDigits false) a = num_loop len lz t ps' (NExpDigits u) (fold_left upd_exp d a).
+Proof.
+  pose proof (group_loop len lz NExpDigits upd_exp (fun _ => True)) as GL.
+  specialize (GL ltac:(intros us a0 b _ D; cbn [num_step]; rewrite D; split; [reflexivity|exact I])).
+  specialize (GL ltac:(intros a0 b D ->; reflexivity)).
+  specialize (GL r ps false a I). destruct (scan_group false r) as [[d u] t].
+  destruct GL as [ps' [E _]]. exists ps'. exact E.
+Qed.
+
+Lemma expdigits_stopped u t ps a : stopped u t ->
+  num_loop len lz t ps (NExpDigits u) a = num_stop len (NExpDigits u) a {| pos := ps; rest := t |}.
+Proof.
+  destruct t as [|b t]; [reflexivity|]. intros [D U]. cbn [num_loop num_step]. rewrite D, (usb_false u b U). reflexivity.
+Qed.
+
+Lemma expdigits_rel r ps a di df sign v : acc_is a (di ++ df) (length df) sign v ->
+  finish_rel (num_loop len lz r ps (NExpDigits false) a)
+    (let '(dx, us, t) := scan_group false r in
+     if us then Err EMissingDigitAfterUnderscore else num_finish di df sign (fold_left dec_step dx v) t).
+Proof.
+  intros HA. pose proof (expdigits_group r ps a) as G. pose proof (scan_group_stopped r false) as ST.
+  destruct (scan_group false r) as [[dx u] t]. destruct G as [ps' ->].
+  rewrite (expdigits_stopped u t ps' _ ST).
+  destruct u.
+  - apply stop_err_us. tauto.
+  - apply (stop_ok len (NExpDigits false) _ {| pos := ps'; rest := t |} di df sign); [tauto|].
+    destruct HA as [A [B [C D]]]. destruct (fold_exp dx a v D) as [A' [B' [D' C']]].
+    split; [rewrite A'; exact A|]. split; [rewrite B'; exact B|]. split; [rewrite C'; exact C|exact D'].
+Qed.
+
+Lemma dec_value_cons b dx : dec_value (b :: dx) = fold_left dec_step dx (b - 48).
+Proof. unfold dec_value. cbn [fold_left]. rewrite N.mul_0_l, N.add_0_l. reflexivity. Qed.
+
+(* after e / E *)
+Lemma digit_exp_opt b : is_digit b = true -> Some (b - 48) = exp_opt (b - 48).
+Proof.
+  intros D. unfold is_digit in D. apply in_range_iff in D. unfold exp_opt.
+  replace (u64_max <? b - 48) with false; [reflexivity|]. symmetry. apply N.ltb_ge. unfold u64_max. lia.
+Qed.
+
+Lemma exp_rel r ps a di df X0 : acc_is a (di ++ df) (length df) false X0 ->
+  finish_rel (num_loop len lz r ps NExp a) (spec_exp di df r).
+Proof.
+  intros HA. unfold spec_exp.
+  assert (FIRST : forall sign b r2 ps' a', acc_is a' (di ++ df) (length df) sign X0 -> is_digit b = true ->
+            finish_rel (num_loop len lz r2 ps' (NExpDigits false) (set_expl a' (Some (b - 48))))
+              (let '(dx, us, t) := scan_group false r2 in
+               if us then Err EMissingDigitAfterUnderscore else num_finish di df sign (dec_value (b :: dx)) t)).
+  { intros sign b r2 ps' a' [A [B [C _]]] D.
+    assert (HA2 : acc_is (set_expl a' (Some (b - 48))) (di ++ df) (length df) sign (b - 48)).
+    { split; [exact A|]. split; [exact B|]. split; [exact C|]. cbn [set_expl n_expl]. apply digit_exp_opt, D. }
+    pose proof (expdigits_rel r2 ps' (set_expl a' (Some (b - 48))) di df sign (b - 48) HA2) as R.
+    destruct (scan_group false r2) as [[dx us] t]. rewrite dec_value_cons. exact R. }
+  assert (SIGN : forall sign r1 ps' a', acc_is a' (di ++ df) (length df) sign X0 ->
+            finish_rel (num_loop len lz r1 ps' NExpSign a')
+              match r1 with
+              | b :: r2 => if is_digit b then
+                   let '(dx, us, t) := scan_group false r2 in
+                   if us then Err EMissingDigitAfterUnderscore else num_finish di df sign (dec_value (b :: dx)) t
+                 else Err EMissingExpDigits
+              | [] => Err EMissingExpDigits
+              end).
+  { intros sign r1 ps' a' HA'. destruct r1 as [|b r2].
+    - cbn [num_loop]. apply stop_err. right. split; [right; reflexivity|reflexivity].
+    - cbn [num_loop num_step]. destruct (is_digit b) eqn:D.
+      + apply FIRST; assumption.
+      + apply stop_err. right. split; [right; reflexivity|reflexivity]. }
+  destruct r as [|b r'].
+  - cbn [num_loop]. apply stop_err. right. split; [left; reflexivity|reflexivity].
+  - cbn [num_loop num_step].
+    destruct (N.eqb_spec b 43) as [->|N43].
+    + apply (SIGN false r' (ps + 1) a HA).
+    + destruct (N.eqb_spec b 45) as [->|N45].
+      * apply (SIGN true r' (ps + 1) (set_sign a)).
+        destruct HA as [A [B [C D]]]. repeat split; assumption.
+      * destruct (is_digit b) eqn:D.
+        -- apply FIRST; assumption.
+        -- apply stop_err. right. split; [left; reflexivity|reflexivity].
+Qed.
+End Chain.
+
+Section Chain2.
+Variables (len : N) (lz : bool).
+
+Lemma exp_opt_0 : Some 0 = exp_opt 0.
+Proof. reflexivity. Qed.
+
+(* ---- fraction ---- *)
+Lemma frac_group r ps a :
+  let '(d, u, t) := scan_group false r in
+  exists ps', num_loop len lz r ps (NFrac false) a = num_loop len lz t ps' (NFrac u) (fold_left upd_frac d a).
+Proof.
+  pose proof (group_loop len lz NFrac upd_frac (fun _ => True)) as GL.
+  specialize (GL ltac:(intros us a0 b _ D; cbn [num_step]; rewrite D; split; [reflexivity|exact I])).
+  specialize (GL ltac:(intros a0 b D ->; reflexivity)).
+  specialize (GL r ps false a I). destruct (scan_group false r) as [[d u] t].
+  destruct GL as [ps' [E _]]. exists ps'. exact E.
+Qed.
+
+Lemma frac_rel r2 ps a int_ds : acc_is a int_ds 0 false 0 ->
+  finish_rel (num_loop len lz r2 ps NDot a)
+    match r2 with
+    | d :: r3 =>
+        if is_digit d then
+          let '(df, us2, r4) := scan_group false r3 in
+          match r4 with
+          | b2 :: r5 => if is_e b2 then spec_exp int_ds (d :: df) r5 else spec_tail int_ds (d :: df) us2 r4
+          | [] => spec_tail int_ds (d :: df) us2 r4
+          end
+        else Err EMissingFracDigits
+    | [] => Err EMissingFracDigits
+    end.
+Proof.
+  intros [A [B [C D]]]. destruct r2 as [|d r3].
+  - cbn [num_loop]. apply stop_err. left. split; reflexivity.
+  - cbn [num_loop num_step]. destruct (is_digit d) eqn:DD.
+    2:{ apply stop_err. left. split; reflexivity. }
+    pose proof (frac_group r3 (ps + 1) (push_digit a d true)) as G.
+    pose proof (scan_group_stopped r3 false) as ST.
+    destruct (scan_group false r3) as [[df u] t]. destruct G as [ps' ->].
+    destruct (fold_frac df (push_digit a d true)) as [A' [B' [D' C']]].
+    cbn [push_digit n_digits n_impl n_expl n_sign] in A', B', C', D'.
+    assert (HA : acc_is (fold_left upd_frac df (push_digit a d true)) (int_ds ++ d :: df) (length (d :: df)) false 0).
+    { split; [rewrite A', A, rev_app_distr; cbn [rev]; rewrite <- app_assoc; reflexivity|].
+      split; [rewrite B', B; cbn [length]; lia|]. split; [rewrite C'; exact C|rewrite D'; exact D]. }
+    assert (STOP : finish_rel (num_stop len (NFrac u) (fold_left upd_frac df (push_digit a d true)) {| pos := ps'; rest := t |})
+                     (spec_tail int_ds (d :: df) u t)).
+    { unfold spec_tail. destruct u.
+      - apply stop_err_us. tauto.
+      - apply (stop_ok len (NFrac false) _ {| pos := ps'; rest := t |} int_ds (d :: df) false 0); [tauto|exact HA]. }
+    destruct t as [|b2 r5]; [exact STOP|].
+    destruct ST as [ND U]. cbn [num_loop num_step]. rewrite ND, (usb_false u b2 U).
+    destruct (is_e b2); [|exact STOP].
+    apply (exp_rel len lz r5 (ps' + 1) _ int_ds (d :: df) 0 HA).
+Qed.
+
+(* ---- integer part, after its digit group ---- *)
+Lemma int_after u t ps a int_ds : stopped u t -> acc_is a int_ds 0 false 0 ->
+  finish_rel (num_loop len lz t ps (NInt u) a)
+    match t with
+    | b :: r2 =>
+        if b =? 46 then
+          match r2 with
+          | d :: r3 =>
+              if is_digit d then
+                let '(df, us2, r4) := scan_group false r3 in
+                match r4 with
+                | b2 :: r5 => if is_e b2 then spec_exp int_ds (d :: df) r5 else spec_tail int_ds (d :: df) us2 r4
+                | [] => spec_tail int_ds (d :: df) us2 r4
+                end
+              else Err EMissingFracDigits
+          | [] => Err EMissingFracDigits
+          end
+        else if is_e b then spec_exp int_ds [] r2
+        else spec_tail int_ds [] u t
+    | [] => spec_tail int_ds [] u t
+    end.
+Proof.
+  intros ST HA.
+  assert (HA0 : acc_is a (int_ds ++ []) (length (@nil N)) false 0) by (rewrite app_nil_r; exact HA).
+  assert (STOP : finish_rel (num_stop len (NInt u) a {| pos := ps; rest := t |}) (spec_tail int_ds [] u t)).
+  { unfold spec_tail. destruct u.
+    - apply stop_err_us. tauto.
+    - apply (stop_ok len (NInt false) a {| pos := ps; rest := t |} int_ds [] false 0); [tauto|exact HA0]. }
+  destruct t as [|b r2]; [exact STOP|].
+  destruct ST as [ND U]. cbn [num_loop num_step]. rewrite ND, (usb_false u b U).
+  destruct (b =? 46).
+  - apply frac_rel, HA.
+  - destruct (is_e b); [|exact STOP]. apply (exp_rel len lz r2 (ps + 1) a int_ds [] 0 HA0).
+Qed.
+End Chain2.
+
+Lemma int_group_nolz len r ps a :
+  let '(d, u, t) := scan_group false r in
+  exists ps', num_loop len false r ps (NInt false) a = num_loop len false t ps' (NInt u) (fold_left upd_int d a).
+Proof.
+  pose proof (group_loop len false NInt upd_int (fun _ => True)) as GL.
+  specialize (GL ltac:(intros us a0 b _ D; cbn [num_step]; rewrite D, andb_false_r; split; [reflexivity|exact I])).
+  specialize (GL ltac:(intros a0 b D ->; reflexivity)).
+  specialize (GL r ps false a I). destruct (scan_group false r) as [[d u] t].
+  destruct GL as [ps' [E _]]. exists ps'. exact E.
+Qed.
+
+Definition acc0 (chr0 : N) : nacc := {| n_digits := [chr0]; n_impl := 0%Z; n_expl := Some 0; n_sign := false |}.
+
+Lemma num_loop_spec len chr0 r ps :
+  finish_rel (num_loop len (chr0 =? 48) r ps (NInt false) (acc0 chr0)) (number_spec false chr0 r).
+Proof.
+  unfold number_spec, after_us. cbn [andb].
+  destruct (chr0 =? 48) eqn:LZ; cbn [andb].
+  - (* leading zero: the first digit met in the integer part is an error *)
+    assert (HA : acc_is (acc0 chr0) [chr0] 0 false 0) by (repeat split).
+    assert (LZE : forall b r' ps' us, is_digit b = true ->
+              finish_rel (num_loop len true (b :: r') ps' (NInt us) (acc0 chr0)) (Err ELeadingZeroInNumber)).
+    { intros b r' ps' us D. cbn [num_loop num_step acc0 n_digits length Nat.eqb andb]. rewrite D.
+      unfold usub. destruct (ps' + 1 <? 2); [exact I|]. cbn [obind]. destruct (ps' + 1 <? 1); [exact I|]. cbn [obind].
+      apply finish_rel_fail. }
+    destruct r as [|b r']; [apply (int_after len true false [] ps (acc0 chr0) [chr0] I HA)|].
+    cbn [scan_group]. destruct (is_digit b) eqn:D.
+    + destruct (scan_group false r') as [[d u] t]. apply LZE, D.
+    + cbn [negb andb]. destruct (N.eqb_spec b 95) as [->|N95].
+      * destruct r' as [|b' r''].
+        -- cbn [scan_group]. cbn [num_loop num_step is_digit]. 
+           change (is_digit 95) with false. cbn iota. cbn [negb andb]. rewrite N.eqb_refl. cbn iota.
+           apply (int_after len true true [] (ps + 1) (acc0 chr0) [chr0] I HA).
+        -- cbn [scan_group]. destruct (is_digit b') eqn:D'.
+           ++ destruct (scan_group false r'') as [[d u] t].
+              cbn [num_loop num_step]. change (is_digit 95) with false. cbn iota. cbn [negb andb]. rewrite N.eqb_refl. cbn iota.
+              apply LZE, D'.
+           ++ cbn [negb andb].
+              cbn [num_loop num_step]. change (is_digit 95) with false. cbn iota. cbn [negb andb]. rewrite N.eqb_refl. cbn iota.
+              apply (int_after len true true (b' :: r'') (ps + 1) (acc0 chr0) [chr0]); [split; [exact D'|discriminate]|exact HA].
+      * apply (int_after len true false (b :: r') ps (acc0 chr0) [chr0]); [split; [exact D|intros _; exact N95]|exact HA].
+  - pose proof (int_group_nolz len r ps (acc0 chr0)) as G. pose proof (scan_group_stopped r false) as ST.
+    destruct (scan_group false r) as [[di u] t]. destruct G as [ps' ->].
+    apply (int_after len false u t ps' _ (chr0 :: di) ST).
+    destruct (fold_int di (acc0 chr0)) as [A [B [C D]]]. cbn [acc0 n_digits n_impl n_expl n_sign] in *.
+    split; [rewrite A; cbn [rev]; reflexivity|]. split; [exact B|]. split; [exact D|exact C].
+Qed.
+
+(* ---- the value theorem ---- *)
+Theorem number_value len start chr0 c : is_digit chr0 = true ->
+  match lex_number len start chr0 c with
+  | Ok (t, c') => exists digits e, tok_kind t = TNumber {| num_digits := digits; num_exp := e |} /\
+                                   number_spec false chr0 (rest c) = Ok (digits, e, rest c')
+  | Err er => number_spec false chr0 (rest c) = Err (err_kind er)
+  | _ => True
+  end.
+Proof.
+  intros D. unfold lex_number. rewrite D. cbn [negb].
+  pose proof (num_loop_spec len chr0 (rest c) (pos c)) as R. fold (acc0 chr0).
+  unfold finish_rel in R.
+  destruct (num_loop len (chr0 =? 48) (rest c) (pos c) (NInt false) (acc0 chr0)) as [[a c1]|er| |]; cbn [obind]; auto.
+  destruct (eff_exp a) as [e|].
+  - unfold commit. destruct (make_span len start (pos c1)) as [sp|er| |] eqn:MS; cbn [obind]; auto.
+    + exists (rev (n_digits a)), e. split; [reflexivity|exact R].
+    + exfalso. unfold make_span in MS. repeat match type of MS with (if ?x then _ else _) = _ => destruct x end; discriminate.
+  - pose proof (fail_inv (A := token * cur) len EExpOverflow start (pos c1) _ eq_refl) as FI.
+    destruct (fail len EExpOverflow start (pos c1)) as [x|er| |]; auto; [contradiction|]. rewrite FI. exact R.
+Qed.
+
+(* ---- what the digits/exponent pair denotes ---- *)
+Lemma dec_fold_app a b v : fold_left dec_step (a ++ b) v = fold_left dec_step b (fold_left dec_step a v).
+Proof. apply fold_left_app. Qed.
+
+Lemma dec_fold_shift b : forall v, fold_left dec_step b v = v * 10 ^ N.of_nat (length b) + fold_left dec_step b 0.
+Proof.
+  induction b as [|x b IH]; intros v; cbn [fold_left length].
+  - cbn. lia.
+  - rewrite (IH (dec_step v x)), (IH (dec_step 0 x)). unfold dec_step.
+    rewrite Nat2N.inj_succ, N.pow_succ_r'. lia.
+Qed.
+
+(* underscores are ignored, the fraction digits follow the integer digits:
+   value(int ++ frac) = value(int) * 10^|frac| + value(frac) *)
+Lemma dec_value_app a b : dec_value (a ++ b) = dec_value a * 10 ^ N.of_nat (length b) + dec_value b.
+Proof. unfold dec_value. change (fun a0 d => a0 * 10 + (d - 48)) with dec_step. rewrite dec_fold_app. apply dec_fold_shift. Qed.
+
+(* the upstream grammar is contained in what the code accepts *)
+Lemma number_spec_strict_sub chr0 r x : number_spec true chr0 r = Ok x -> number_spec false chr0 r = Ok x.
+Proof.
+  unfold number_spec, after_us. cbn [andb].
+  destruct (scan_group false r) as [[di us1] r1].
+  destruct ((chr0 =? 48) && negb match di with [] => true | _ => false end); [discriminate|].
+  destruct r1 as [|b r2]; [exact (fun H => H)|].
+  destruct (b =? 46).
+  - destruct us1; [discriminate|]. destruct r2 as [|d r3]; [exact (fun H => H)|].
+    destruct (is_digit d); [|exact (fun H => H)].
+    destruct (scan_group false r3) as [[df us2] r4]. destruct r4 as [|b2 r5]; [exact (fun H => H)|].
+    destruct (is_e b2); [|exact (fun H => H)]. destruct us2; [discriminate|exact (fun H => H)].
+  - destruct (is_e b); [|exact (fun H => H)]. destruct us1; [discriminate|exact (fun H => H)].
+Qed.
+
+(* THE DEVIATION, as facts about the code: after an underscore the state machine
+   still accepts '.' and 'e' (the upstream grammar requires a digit) *)
+Lemma number_underscore_deviation :
+  (forall lz a, num_step lz (NInt true) a 46 = NGo NDot a) /\
+  (forall lz a, num_step lz (NInt true) a 101 = NGo NExp a) /\
+  (forall lz a, num_step lz (NFrac true) a 101 = NGo NExp a) /\
+  (* 1_.5  1_e5  1.0_e1 : accepted by the code, rejected by the strict grammar *)
+  number_spec false 49 [95; 46; 53] = Ok ([49; 53], (-1)%Z, []) /\
+  number_spec true 49 [95; 46; 53] = Err EMissingDigitAfterUnderscore /\
+  number_spec false 49 [95; 101; 53] = Ok ([49], 5%Z, []) /\
+  number_spec true 49 [95; 101; 53] = Err EMissingDigitAfterUnderscore /\
+  number_spec false 49 [46; 48; 95; 101; 49] = Ok ([49; 48], 0%Z, []) /\
+  number_spec true 49 [46; 48; 95; 101; 49] = Err EMissingDigitAfterUnderscore /\
+  (* 1_  and  1__0  are rejected by both *)
+  number_spec false 49 [95] = Err EMissingDigitAfterUnderscore /\
+  number_spec false 49 [95; 95; 48] = Err EMissingDigitAfterUnderscore.
+Proof. repeat split; vm_compute; reflexivity. Qed.
